@@ -18,6 +18,16 @@ def lnotab_cases(draw, version):
     """{"table": hex, "first": n, "codelen": N} for lnotab (<= 3.9) or the 3.10 line table"""
     n = draw(st.integers(0, 8))
     pairs = []
+    if version < (3, 6) and draw(st.integers(0, 5)) == 0:
+        # a table that is, as a whole, valid UTF-8 with multi-byte sequences (a binary table must not be read as text)
+        txt = draw(st.text(alphabet=st.characters(min_codepoint=0x80, max_codepoint=0x7FF), min_size=1, max_size=4))
+        raw = list(txt.encode("utf-8"))
+        fill = [draw(st.integers(1, 0x7F)) for _ in range(draw(st.integers(0, 4)))]
+        at = draw(st.integers(0, len(fill)))
+        pairs = fill[:at] + raw + fill[at:]
+        if len(pairs) % 2:
+            pairs.append(1)
+        n = 0
     for _ in range(n):
         kind = draw(st.integers(0, 5))
         if kind == 0:
